@@ -143,6 +143,7 @@ def _set_with_op(container: Any, key: Any, op: str, value: Any) -> Any:
     _get_item(container, key)  # missing key or index: ParserError, like a plain read
 
     if op == '+=':
+        _check_concat_size(container[key], value)
         container[key] += value
     elif op == '-=':
         container[key] -= value
@@ -316,6 +317,12 @@ def _reversed(container: Union[list, str]):
 
 def _check_array_size(arr: Union[list, dict]):
     if len(arr) >= MAX_ARRAY_SIZE:
+        raise ParserError(f'Array size overflow: {MAX_ARRAY_SIZE}')
+
+
+def _check_concat_size(op1: Any, op2: Any):
+    if isinstance(op1, (list, tuple)) and isinstance(op2, (list, tuple, str, dict)) \
+            and len(op1) + len(op2) > MAX_ARRAY_SIZE:
         raise ParserError(f'Array size overflow: {MAX_ARRAY_SIZE}')
 
 
